@@ -75,6 +75,9 @@ NS_SETS = {
     'n3': (10, 20, 30),
     'n5': (10, 20, 30, 40, 100),
     'd4': (1, 5, 30, 40),
+    # irregular spacing: with RENUM 20,,20 the outer lines move up while a middle line moves down
+    # onto the old number of another line (10->20, 60->40, 70->60, 75->80)
+    'i4': (10, 60, 70, 75),
 }
 
 ARGS = {
@@ -89,6 +92,7 @@ ARGS = {
     'clash': (20, 30, None),
     'overflow': (65500, 10, 10),
     'step0': (100, 30, 0),
+    'by20': (20, None, 20),
     # new numbers starting at 0: the first renumbered line becomes line 0 (a falsy number)
     'tozero': (0, None, None),
     'tozero5': (0, None, 5),
@@ -717,11 +721,11 @@ def legs(ctx):
     out = []
     if ctx.quick:
         single = []
-        for nsid in ('n4', 'z4', 'd4'):
+        for nsid in ('n4', 'z4', 'd4', 'i4'):
             single += _shards(nsid, ARGS_ALL, enum_single(nsid), 12)
         out.append(Leg('single', single, work_direct, exhaustive=True,
                        bound='every program with 1 reference statement (22 kinds x all targets incl. missing/0) '
-                             'on line sets n4,z4,d4 x 11 RENUM argument triples'))
+                             'on line sets n4,z4,d4,i4 x %d RENUM argument triples' % len(ARGS_ALL) + ''))
         pairs = _shards('n4', ARGS_TRAP + ['gap'], enum_pairs('n4', CORE_QUICK), 40)
         out.append(Leg('pairs', pairs, work_direct, exhaustive=True,
                        bound='every program with 2 statements of the 8-kind quick core alphabet on lines '
@@ -732,11 +736,11 @@ def legs(ctx):
                              'of the quick core alphabet at every other position'))
         return out
     single = []
-    for nsid in ('n4', 'z4', 'd4', 'n3', 'n5'):
+    for nsid in ('n4', 'z4', 'd4', 'n3', 'n5', 'i4'):
         single += _shards(nsid, ARGS_ALL, enum_single(nsid), 12)
     out.append(Leg('single', single, work_direct, exhaustive=True,
                    bound='every program with 1 reference statement (22 kinds x all targets incl. missing/0) '
-                         'on line sets n4,z4,d4,n3,n5 x 11 RENUM argument triples'))
+                         'on line sets n4,z4,d4,n3,n5,i4 x %d RENUM argument triples' % len(ARGS_ALL) + ''))
     pairs = _shards('n4', ARGS_CORE, enum_pairs('n4', CORE), 25)
     pairs += _shards('z4', ['default', 'range', 'inc5'], enum_pairs('z4', CORE_QUICK + ['onerr0']), 40)
     out.append(Leg('pairs', pairs, work_direct, exhaustive=True,
